@@ -4,6 +4,9 @@ package main
 // library (anacrolix/torrent/bencode) and compared with the model's value.
 
 import (
+	"sync"
+	"runtime"
+	"net/http"
 	"encoding/binary"
 	"errors"
 	"fmt"
@@ -88,15 +91,62 @@ func httpwAnnounce(c *Ctx, compact bool, complete, incomplete uint32, interval, 
 				o = "PANIC"
 			}
 		}()
-		w := httptest.NewRecorder()
+		rec := httptest.NewRecorder()
+		var w http.ResponseWriter = rec
+		if slowWrites {
+			w = slowWriter{rec}
+		}
 		resp := &bittorrent.AnnounceResponse{Compact: compact, Complete: complete, Incomplete: incomplete, Interval: time.Duration(interval),
 			MinInterval: time.Duration(minInterval), IPv4Peers: toBT(p4, bittorrent.IPv4), IPv6Peers: toBT(p6, bittorrent.IPv6)}
 		if err := httpfe.WriteAnnounceResponse(w, resp); err != nil {
 			return "write-error"
 		}
-		return "body=" + clientDecode(w.Body.Bytes()) + " rt=1"
+		return "body=" + clientDecode(rec.Body.Bytes()) + " rt=1"
 	}()
 	c.Emit(op, obs)
+}
+
+// slowWriter yields before it copies the bytes it was handed: a response whose bytes alias a shared
+// (pooled) buffer is overwritten by another response being encoded in the meantime.
+var slowWrites bool
+
+type slowWriter struct{ *httptest.ResponseRecorder }
+
+func (s slowWriter) Write(b []byte) (int, error) {
+	for i := 0; i < 8; i++ {
+		runtime.Gosched()
+	}
+	time.Sleep(20 * time.Microsecond)
+	return s.ResponseRecorder.Write(b)
+}
+
+// concurrentHTTPWrites: workers encode different responses at the same time through slow writers;
+// every body must decode to its own response (compared with the model line by line).
+func concurrentHTTPWrites(c *Ctx, r *Rng, workers, per int) {
+	slowWrites = true
+	defer func() { slowWrites = false }()
+	var wg sync.WaitGroup
+	for w := 0; w < workers; w++ {
+		rr := r.Fork()
+		wg.Add(1)
+		go func(w int, rr *Rng) {
+			defer wg.Done()
+			for i := 0; i < per; i++ {
+				var p4, p6 []wPeer
+				for k := 0; k < rr.Pick(0, 1, 3, 20, 60); k++ {
+					p4 = append(p4, wPeer{id: rr.Bytes(20), port: uint16(rr.U64()), ip: []byte{10, byte(w), byte(i), byte(k)}})
+				}
+				for k := 0; k < rr.Pick(0, 0, 1, 5); k++ {
+					ip := rr.Bytes(16)
+					ip[0] = 0x20
+					p6 = append(p6, wPeer{id: rr.Bytes(20), port: uint16(rr.U64()), ip: ip})
+				}
+				httpwAnnounce(c, rr.Bool(), uint32(w), uint32(i), int64(1+rr.Intn(3600))*1e9, 900e9, p4, p6)
+			}
+		}(w, rr)
+	}
+	wg.Wait()
+	c.Kind("concurrent-writes")
 }
 
 func httpwScrape(c *Ctx, ihs [][]byte, cs, is []uint32) {
@@ -278,6 +328,7 @@ func runC08(c *Ctx) {
 		}
 	}
 	// malformed responses: a peer of the wrong family must behave as the model says (panic sites of the writer)
+	concurrentHTTPWrites(c, r, 16, c.N/40+5)
 	httpwAnnounce(c, true, 1, 1, 1800e9, 900e9, []wPeer{{id: r.Bytes(20), port: 1, ip: net.ParseIP("2001:db8::1")}}, nil)
 	httpwAnnounce(c, true, 1, 1, 1800e9, 900e9, nil, []wPeer{{id: r.Bytes(20), port: 1, ip: []byte{10, 0, 0, 1}}})
 	httpwAnnounce(c, true, 1, 1, 1800e9, 900e9, []wPeer{{id: r.Bytes(20), port: 1, ip: []byte{1, 2, 3}}}, nil)
